@@ -103,6 +103,12 @@ def generate(seed, stratum, tier):
     else:
       objs[x]['react']['SC'] = [{'op': 'publish', 'sig': 'SD', 'prio': rng.choice([None, 1]), 'id': 2, 'max': 3}]
       c.append(['post_fifo', x, 'SC'])
+  if nobj > 1 and rng.random() < 0.2:
+    # the last thing an object does: its handler calls stop() and, still in that step, publishes (its thread is alive)
+    x = rng.randrange(nobj)
+    objs[x]['react']['TSTOP'] = [{'op': 'stop', 'id': 5, 'max': 1}, {'op': 'publish', 'sig': 'SD', 'prio': None, 'id': 6, 'max': 1}]
+    c.append(['await_idle'])
+    c.append(['post_fifo', x, 'TSTOP'])
   c.append(['await_idle'])
   return {'objects': objs, 'queue_size': 500, 'clients': [c], 'stalls': common.draw_stalls(rng, 2500, rate=0.3),
           'sched': common.draw_sched(rng, grans=('sync', 'line'), expected_steps=2500, victims=[rng.choice(['consumer', 'fabric.fifo', 'fabric.lifo'])])}
@@ -173,6 +179,8 @@ def judge(sc, run, sim, res):
     if p['sig'] not in ('SD', 'SE') or p['end'] is None:
       continue
     for oi in range(nobj):
+      if any(st_['obj'] == oi for st_ in run.stops):
+        continue      # an object that stopped itself receives nothing any more; the others still must
       got = sum(1 for d in run.dispatch if d[1] == oi and d[3] == uid)
       need = [k for (o, k, sg), q in eff.items() if o == oi and sg == p['sig'] and q < p['begin']]
       could = [k for (o, k, sg), b in asked.items() if o == oi and sg == p['sig']]
